@@ -45,6 +45,15 @@ class FormatOptions:
     show_hidden_frames: bool
 
 
+def _safe_repr(value: object) -> str:
+    # Like traceback.StackSummary.extract(capture_locals=True): a local
+    # whose repr() fails doesn't take the whole summary down with it
+    try:
+        return repr(value)
+    except Exception:
+        return "<repr() failed>"
+
+
 class Formattable:
     def __str__(self) -> str:
         return "".join(self.format())
@@ -336,7 +345,8 @@ class Frame(Formattable):
         """
         if capture_locals:
             save_locals = {
-                name: repr(value) for name, value in self.pyframe.f_locals.items()
+                name: _safe_repr(value)
+                for name, value in self.pyframe.f_locals.items()
             }
         else:
             save_locals = None
@@ -437,7 +447,9 @@ class Context(Formattable):
         if self.hide and not show_hidden_frames:
             return
         if capture_locals:
-            save_locals = {"<context manager>": self.description or repr(self.obj)}
+            save_locals = {
+                "<context manager>": self.description or _safe_repr(self.obj)
+            }
         else:
             save_locals = None
         info = self._name_and_type()
